@@ -783,6 +783,10 @@ def krylov(model, sfield, efield, var):
         pre = "\n* ERROR   :: "
     elif i > 0:
         var.exit_message = "MAX. ITERATION REACHED, NOT CONVERGED"
+    elif not var.l2 < var.tol*var.l2_refe:
+        # The sslsolver judges convergence by its recursively updated
+        # residual, which can drift away from the actual residual.
+        var.exit_message = f"NOT CONVERGED ({var.sslsolver} ended, error>tol)"
     else:
         var.exit_message = "CONVERGED"
     var.cprint(pre+var.exit_message, 2)
